@@ -139,6 +139,10 @@ def md5_secret(rng, saltlen):
 def j9_occurrence(rng, secret):
     """A fresh $9$ encoding (random salt character and fillers) of the secret's plaintext."""
     sc = rng.choice(decoders.J9_ALPHABET)
+    if rng.random() < 0.2 and all(ord(c) < 256 for c in secret["plain"]):
+        enc = decoders.j9_encode_noncanonical(secret["plain"], sc, rng)
+        if decoders.j9_decode(enc) == secret["plain"]:
+            return enc, sc
     enc = decoders.j9_encode(secret["plain"], sc, rng)
     return enc, sc
 
